@@ -183,6 +183,47 @@ def jit_history(ctx, env):
     sq = [3]
     bad = 0
     firsts = ("sid", "ident", "diag", "mat") if not ctx.thorough else tuple(c for c in T.CLASSES if c != "nonlin")
+    # single-object histories: the FIRST call of a method that may cache (gram, adj, gram_op) happens inside jax.jit,
+    # later calls on the same object are eager
+    for ca in T.CLASSES:
+        if ca == "nonlin":
+            continue
+        for dt in ("float64", "complex128"):
+            ea = T.leaf(rng, ca, sq, sq, lambda: dt)
+            if ea is None:
+                continue
+            ctx.case({"jit-history-1": [ca, dt]}, ("jit-history-1", ca, dt), sample_every=40)
+            ctx.count("jit-history:single-object cases")
+            Da = G.np_den(ea)
+            x = T.vals(rng, (3,), G.is_cplx(dt)).astype(np.complex128)
+            xa = env.to_array(x, sq, dt)
+            fail = None
+            try:
+                A = env.build(ea)
+                first = {"gram": lambda v, A=A: A.gram(v), "adj": lambda v, A=A: A.adj(v), "gram_op": lambda v, A=A: A.gram_op(v)}
+                W = {"gram": Da.conj().T @ Da, "adj": Da.conj().T, "gram_op": Da.conj().T @ Da}
+                for nm, f in first.items():
+                    y = env.flat(jax.jit(f)(xa))
+                    if not G.vec_close(y, W[nm] @ x, 1e-9, 9):
+                        fail = {"step": f"jit(lambda v: A.{nm}(v))(x)", "returned": [str(complex(z)) for z in y], "construction": [str(complex(z)) for z in W[nm] @ x]}
+                        break
+                if fail is None:
+                    for nm, f in list(first.items()) + [("__call__", lambda v, A=A: A(v)), ("H", lambda v, A=A: A.H(v))]:
+                        Wm = W.get(nm, Da if nm == "__call__" else Da.conj().T)
+                        y = env.flat(f(xa))
+                        if not G.vec_close(y, Wm @ x, 1e-9, 9):
+                            fail = {"step": f"then eagerly A.{nm}(x)", "returned": [str(complex(z)) for z in y], "construction": [str(complex(z)) for z in Wm @ x]}
+                            break
+            except Exception as ex:  # noqa: BLE001
+                fail = {"step": "single-object history (first gram / adj / gram_op under jax.jit, then eager calls)", "raised": repr(ex)[:200]}
+            if fail:
+                fail.update({"A": G.skeleton(ea), "x": [str(complex(z)) for z in x], "history": "A built once; gram, adj, gram_op first called inside jax.jit"})
+                ctx.disagree("opalg.jit-history", {"a": ea, "dt": dt}, _js(fail), "same construction on the operand's matrix at every step",
+                             oracle=lambda c, fail=fail: _js(fail))
+                bad += 1
+                if bad >= 3:
+                    return
+    jax.clear_caches()
     for ca in firsts:
         for cb in T.CLASSES:
             if cb == "nonlin":
